@@ -445,7 +445,7 @@ func (c *clientV2) SetReadyCount(count int64) {
 	if oldCount != count {
 		c.tryUpdateReadyState()
 	}
-	verif.Ev("KRdyDone", "k", c.ID, "n", count, "now", time.Now().UnixNano())
+	verif.Ev("KRdyDone", "k", c.ID, "n", count, "now", time.Now().UnixNano(), "sig", oldCount != count)
 }
 
 func (c *clientV2) tryUpdateReadyState() {
